@@ -283,8 +283,6 @@ def leg_trace(legs):
     need = ["ev_round", "ev_req", "ev_tick", "done_ok_200", "done_fail_500", "done_timeout", "cmd_SetHealthCheck",
             "cmd_RemoveHealthCheck", "cmd_AddClusterNoHc", "cmd_RemoveCluster", "cmd_AddBackend", "cmd_RemoveBackend"]
     missing = [k for k in need if counts.get(k, 0) == 0]
-    if missing:
-        raise vlib.ToolError("vacuous drive_health run: never recorded: %s" % missing)
     overloaded = summ["worst_stall_ms"] > 400
     legs.samples += summ["samples"][:2]
     legs.extra["health_trace_events"] = summ["events"]
@@ -294,6 +292,9 @@ def leg_trace(legs):
     legs.tlc.append(r)
     legs.trace_runs = 0
     if judge_trace(legs, r, trace, overloaded, "health_rejected_trace.ndjson"):
+        # (a rejected trace is a verdict; only an accepted one can be vacuous)
+        if missing:
+            raise vlib.ToolError("vacuous drive_health run: never recorded: %s" % missing)
         legs.traces += summ["runs"]
         legs.trace_runs = summ["runs"]
         # self-test of the binding: corrupted copies must be rejected exactly at the corrupted event
@@ -441,7 +442,7 @@ def settle_replay(legs):
     need = ["probes_started", "result_ok", "result_fail", "flip_up", "flip_down", "tick", "srv_answer", "srv_partial", "srv_close",
             "cfg_SetHealthCheck", "cfg_RemoveHealthCheck", "cfg_AddClusterNoHc", "cfg_RemoveCluster", "cfg_AddBackend", "cfg_RemoveBackend"]
     missing = [k for k in need if counts.get(k, 0) == 0]
-    if missing:
+    if missing and not any(v.get("kind") == "violation" for v in out):
         raise vlib.ToolError("vacuous replay_health run: never exercised: %s" % missing)
     for v in out:
         if v.get("kind") == "violation":
@@ -483,11 +484,10 @@ def finish(legs, rep):
     """Wait for the legs and merge them into the C12 report. Returns a sentence for the coverage rule."""
     for t in legs.threads:
         t.join()
-    if not legs.errors:
-        try:
-            settle_replay(legs)
-        except vlib.ToolError as e:
-            legs.errors.append("replay: %s" % e)
+    try:
+        settle_replay(legs)
+    except vlib.ToolError as e:
+        legs.errors.append("replay: %s" % e)
     for r in legs.tlc:
         rep.add_tlc(r)
     rep.cov["transitions"] += legs.sim_states
